@@ -166,7 +166,7 @@ def bmc_run(pid, run, work, log):
     kernels = [f.name for f in m.funcs.values() if f.defined and f.name.startswith('k_')]
     # differential test generated C vs real functions
     gen_exe = os.path.join(work, run.name + '.gen.exe'); real_exe = os.path.join(work, run.name + '.real.exe')
-    r1 = sh(['gcc', '-O1', '-w', '-I' + K, cgen, laws, '-o', gen_exe])
+    r1 = sh(['gcc', '-O1', '-w', '-I' + K, '-include', os.path.join(K, 'bmc_native_shim.h'), cgen, laws, '-o', gen_exe])
     r2 = sh(['g++', '-std=' + run.std, '-O1', '-w', '-I' + REPO + '/include', '-c', ksrc, '-o', real_exe + '.k.o'])
     r3 = sh(['gcc', '-O1', '-w', '-I' + K, '-c', laws, '-o', real_exe + '.l.o'])
     r4 = sh(['g++', real_exe + '.k.o', real_exe + '.l.o', '-o', real_exe])
@@ -198,7 +198,7 @@ def bmc_run(pid, run, work, log):
                 if mm: vals[n] = int(mm[-1])
             rn = sh([real_exe] + ['%s=%d' % kv for kv in vals.items()])
             rp = {'choices': [['sym', 64, v] for v in vals.values()], 'inputs': vals, 'obs': [], 'cover': [], 'heapfill': [], 'steps': 0,
-                  'violation': {'msg': 'CBMC: law "%s" fails for %s' % (f[2], vals), 'kind': 'bmc-law', 'aid': int(f[1]), 'where': run.laws + ':' + f[1], 'tags': []}}
+                  'violation': {'msg': 'CBMC: law "%s" fails for %s' % (f[2], vals), 'kind': 'ub' if ('overflow' in f[2] or 'shift' in f[2]) else 'bmc-law', 'aid': int(f[1]), 'where': run.laws + ':' + f[1], 'tags': []}}
             rec = {'run': run.name, 'harness': run.harness, 'defines': {}, 'std': run.std, 'exc': False, 'own_new': False, 'replay': rp, 'count': 1, 'bmc': {'laws': run.laws, 'kernel': run.harness}}
             if ('LAW-FAIL ' + f[2]) in rn.stdout:
                 rec['native'] = {'variant': 'g++ build of the real functions', 'exit': rn.returncode, 'out': rn.stdout[-300:]}; res['confirmed'].append(rec)
